@@ -587,6 +587,17 @@ Example C06_safe_with_stale_shared_size_ex :
   orun c init (map (fun a => (None, a)) [ArriveCheck 1 0 0]) = run c init [ArriveCheck 1 0 0].
 Proof. cbn zeta. repeat split; try apply orun_atomic; vm_compute; reflexivity. Qed.
 
+(* The tie between [orun] and the model the suites execute, as a final
+   statement: the schedules of [orun] in which the environment never chooses the
+   outcome of the shared-size test (every choice [None]) are exactly the
+   schedules of [run] — from every state, on every tree.  So [orun] only ADDS
+   behaviours to [run], and C06_safe_with_stale_shared_size speaks about every
+   state of [run] (and more). *)
+Theorem C06_stale_size_model_extends_run : forall c s sch,
+  orun c s (map (fun a => (None, a)) sch) = run c s sch.
+Proof. intros c s sch. exact (orun_atomic c sch s). Qed.
+Print Assumptions C06_stale_size_model_extends_run.
+
 (* Trusted clock assumption made visible: stamps are readings of
    time.Now().UnixNano() (wall clock); the model takes them strictly increasing.
    The assumption is NEEDED: if a later Enqueue read a clock value below the
@@ -846,7 +857,8 @@ Print Assumptions C06_due_wake_signals.
    most recent scan, and that scan is less than dl old and came after the
    request's expiry.  In other words: signal no later than
    registration + TTL + dl + (time the loop keeps the request at wake-ups: one
-   quota call per pass of the 100 ms loop). *)
+   quota call per pass of the 100 ms loop).  To be read with 1 <= dl: the
+   instance dl = 0 is degenerate (C06_wfair_zero_is_degenerate below). *)
 Theorem C06_signal_within_ttl_plus_latency : forall c dl sch r,
   0 <= ttl c -> 0 <= dl -> wfair false c dl (tinit c) sch = true ->
   let t := trun false c (tinit c) sch in
@@ -869,6 +881,107 @@ Example C06_sched_ex :
      regat t 1 + ttl c + 1 < clk t /\ wheld t = Some 1 /\ nea t = 10 /\
      let t' := trun false c t [TAct (TickDecide false); TWake] in
   dones (info (base t') 1) = 1 /\ clk t' = 12.
+Proof. vm_compute. repeat split; auto. Qed.
+
+(* dl = 0 is a DEGENERATE instance of the fairness hypothesis (integer time,
+   strict scan): the wake-up at the expiry instant 10 cannot signal (the scan
+   wants an instant AFTER the expiry), it leaves nea = lastwake = 10, and the
+   clock step to 11 — without which the request can never be signalled — is
+   already unfair at latency 0 although the watcher woke at the very instant its
+   timer was due and wakes again at 11.  The same schedule is fair at latency 1.
+   So the statements above are to be read with 1 <= dl (the latency of one
+   wake-up is at least one clock unit = 1 ns in the harness); at dl = 0 their
+   premise [regat + ttl + dl < clk] with [dones = 0] is reachable only while the
+   loop holds the request from before its expiry on. *)
+Example C06_wfair_zero_is_degenerate :
+  let c := {| qmax := 1; smax := -1; ttl := 10; var := fixed |} in
+  let pre := [TAct (ArriveCheck 1 0 0); TAct (ArriveRegister 1); TAct (ArrivePush 1);
+              TAdv 10; TWake] in
+  let t := trun false c (tinit c) pre in
+  wfair false c 0 (tinit c) pre = true /\
+     clk t = 10 /\ nea t = 10 /\ lastwake t = 10 /\ dones (info (base t) 1) = 0 /\ held (base t) = None /\
+     wfair false c 0 (tinit c) (pre ++ [TAdv 1]) = false /\
+     wfair false c 1 (tinit c) (pre ++ [TAdv 1; TWake]) = true /\
+     dones (info (base (trun false c (tinit c) (pre ++ [TAdv 1; TWake]))) 1) = 1.
+Proof. vm_compute. repeat split; reflexivity. Qed.
+
+(* The same bound for the VERDICT (the value Execute returns), not only for the
+   signal: under the same hypotheses, a request whose Execute call is waiting
+   more than TTL + dl after its registration either is in the excepted situation
+   (the loop held it at the watcher's most recent scan, less than dl ago) or has
+   its signal — and then the return of Wait() is enabled NOW, takes no time and
+   writes the verdict: allowed exactly when the result is "success".  (That the
+   waiter's goroutine is scheduled is the Go scheduler's fairness, as for every
+   other step; WaiterReturn has no other guard.) *)
+Theorem C06_verdict_within_ttl_plus_latency : forall c dl sch r,
+  0 <= ttl c -> 0 <= dl -> wfair false c dl (tinit c) sch = true ->
+  let t := trun false c (tinit c) sch in
+  In r (watch (base t)) -> pc (info (base t) r) = PWaiting -> regat t r + ttl c + dl < clk t ->
+  (wheld t = Some r /\ clk t - dl <= lastwake t /\ expire (info (base t) r) < lastwake t) \/
+  (1 <= dones (info (base t) r) /\
+     let t' := tstep false c t (TAct (WaiterReturn r)) in
+     clk t' = clk t /\ pc (info (base t') r) = PReturned /\
+     verdict (info (base t') r) =
+       Some (match res (info (base t) r) with Success => true | _ => false end)).
+Proof.
+  intros c dl sch r Ht Hd Hf t Hw Hp Hl.
+  destruct (Z.eq_dec (dones (info (base t) r)) 0) as [H0|H0].
+  - left. exact (C06_signal_within_ttl_plus_latency c dl sch r Ht Hd Hf Hw H0 Hl).
+  - right. destruct (C06_timed_states_are_untimed_states false c sch) as [bs Hb]. fold t in Hb.
+    assert (Hn : 0 <= dones (info (base t) r)).
+    { rewrite Hb. apply InvB_nonneg. destruct (Inv_run c bs) as (_ & HB & _). exact HB. }
+    assert (H1 : 1 <= dones (info (base t) r)) by lia.
+    split; [exact H1|]. cbn [tstep tact base clk retime step].
+    split; [reflexivity|]. apply waiter_return_verdict; assumption.
+Qed.
+Print Assumptions C06_verdict_within_ttl_plus_latency.
+
+(* The excepted situation does not outlast the quota call: whatever the loop
+   holds, once its decision is taken (TickDecide, either answer) the loop holds
+   nothing, so for a registered request whose registration + TTL has passed the
+   watcher's timer is due at once and the wake-up that follows signals it (a
+   grant has signalled it already).  With the theorem above: no signal after
+   registration + TTL + dl only during one quota call. *)
+Theorem C06_held_escape_ends_with_decision : forall c sch r b post, 0 <= ttl c ->
+  let t := trun false c (tinit c) sch in
+  In r (watch (base t)) -> regat t r + ttl c < clk t ->
+  let t1 := tstep false c t (TAct (TickDecide b)) in
+  held (base t1) = None /\ due t1 = true /\
+  1 <= dones (info (base (trun false c t (TAct (TickDecide b) :: TWake :: post))) r).
+Proof.
+  intros c sch r b post Ht t Hw Hl t1.
+  assert (E : t1 = trun false c (tinit c) (sch ++ [TAct (TickDecide b)])).
+  { rewrite trun_app. reflexivity. }
+  assert (Hh : held (base t1) = None) by (unfold t1; cbn [tstep tact base retime step]; apply decide_idle).
+  assert (Hw1 : In r (watch (base t1))).
+  { unfold t1. cbn [tstep tact base retime step].
+    destruct (tick_decide_frame c (base t) b) as (_ & W & _). rewrite W. exact Hw. }
+  assert (Hl1 : regat t1 r + ttl c < clk t1) by (unfold t1; cbn [tstep tact regat clk]; exact Hl).
+  assert (Hn : held (base t1) <> Some r) by (rewrite Hh; discriminate).
+  rewrite E in Hw1, Hl1, Hn.
+  destruct (C06_due_wake_signals c (sch ++ [TAct (TickDecide b)]) r post Ht Hw1 Hl1 Hn) as [D S].
+  rewrite <- E in D, S. split; [exact Hh|]. split; [exact D|]. exact S.
+Qed.
+Print Assumptions C06_held_escape_ends_with_decision.
+
+Example C06_verdict_within_ttl_plus_latency_ex :
+  (* both disjuncts are inhabited under all hypotheses (TTL 10, latency 1): at 12
+     the waiting request is in the excepted situation (C06_sched_ex); after the
+     refusal and the next wake-up it has its signal, its Execute still waits, and
+     the return of Wait() gives "blocked" at the same instant 12 *)
+  let c := {| qmax := 1; smax := -1; ttl := 10; var := fixed |} in
+  let sch := [TAct (ArriveCheck 1 0 0); TAct (ArriveRegister 1); TAct (ArrivePush 1);
+              TAdv 10; TWake; TAdv 1; TAct TickPop; TWake; TAdv 1] in
+  let t := trun false c (tinit c) sch in
+  let sch2 := sch ++ [TAct (TickDecide false); TWake] in
+  let t2 := trun false c (tinit c) sch2 in
+  (wfair false c 1 (tinit c) sch = true /\ In 1 (watch (base t)) /\ pc (info (base t) 1) = PWaiting /\
+     regat t 1 + ttl c + 1 < clk t /\ dones (info (base t) 1) = 0 /\ wheld t = Some 1) /\
+  (wfair false c 1 (tinit c) sch2 = true /\ In 1 (watch (base t2)) /\ pc (info (base t2) 1) = PWaiting /\
+     regat t2 1 + ttl c + 1 < clk t2 /\ dones (info (base t2) 1) = 1 /\
+     verdict (info (base t2) 1) = None /\
+     let t' := tstep false c t2 (TAct (WaiterReturn 1)) in
+     verdict (info (base t') 1) = Some false /\ clk t' = 12).
 Proof. vm_compute. repeat split; auto. Qed.
 
 (* the three statements as one property of a recalculation variant *)
@@ -957,6 +1070,31 @@ Proof.
   intros c hdr groups ops Hf. apply (tre_send c hdr groups ops _ Hf). apply tre_init.
 Qed.
 Print Assumptions C06_sched_suite_states_are_timed_reachable.
+
+(* The premise "clock steps are never negative" is enforced by the suite itself,
+   not left to the generator: [run_scase] rejects (reports as a mismatch) a case
+   that contains a negative step before it compares anything, so a case the
+   check accepts satisfies the premise of the theorem above and is a walk of
+   [srun] from the initial state. *)
+Theorem C06_sched_suite_clock_steps_nonneg : forall mx sm tl hdr groups ops,
+  run_scase ((mx, sm, tl, hdr, groups), ops) = None ->
+  Forall (fun p => nonneg_adv (fst p)) ops /\
+  srun {| qmax := mx; smax := sm; ttl := tl; var := code_variant |} hdr groups
+       {| sh := {| hs := init; hnow := 0; hgate := true; hpend := false |}; snea := tl |} 0%N ops = None.
+Proof.
+  intros mx sm tl hdr groups ops H. split.
+  - exact (run_scase_none_nonneg _ ops H).
+  - exact (run_scase_none_srun mx sm tl hdr groups ops H).
+Qed.
+Print Assumptions C06_sched_suite_clock_steps_nonneg.
+
+Example C06_sched_suite_rejects_negative_step :
+  (* the same two operations with the step 3 are accepted when the observations
+     are the model's own; with the step -3 the case is rejected at index 1 *)
+  let o0 : sobs := ((false, 0, false, []), 10) in
+  run_scase ((1, -1, 10, false, []), [(SOp (HAdvance 5), o0); (SOp (HAdvance (-3)), o0)]) = Some (1%N, o0) /\
+  run_scase ((1, -1, 10, false, []), [(SOp (HAdvance 5), o0); (SOp (HAdvance 3), o0)]) = None.
+Proof. vm_compute. split; reflexivity. Qed.
 
 Theorem C06_sched_suite_walks_send : forall c hdr groups ops1 ops2 h n,
   srun c hdr groups h n (ops1 ++ ops2) = None ->
